@@ -251,7 +251,7 @@ C11_NonTrivial(c, r, v) == \E m \in v.roots : Cardinality(YsOf(c, r, v, m)) >= 2
 (* contiguous.  Not judged when the iteration budget was exhausted.        *)
 C10_Applies(c, r, v) == /\ v.ok /\ EdgesMapped(c, r) /\ c.p2 = "ns" /\ c.ls > 0
                         /\ Len(r.oe) = Len(c.edges) /\ IsAcyclic(DrawnArcs(r))
-                        /\ ("capped" \notin DOMAIN r \/ r.capped = 0)
+                        /\ r.capped = 0
 SpanOf(c, r, v, e) == Abs(BandIdx(c, r, v, e.f) - BandIdx(c, r, v, e.t))
 DrawnTotal(c, r, v) == SumSeq([k \in DOMAIN r.oe |-> IF r.oe[k].f = r.oe[k].t THEN 0 ELSE SpanOf(c, r, v, r.oe[k])])
 \* the optimum: brute force for n <= 5, otherwise from the LP-duality certificate attached to the record
@@ -268,11 +268,15 @@ CertOK(c, r) ==
        /\ SumSeq(f) = SumSeq([k \in DOMAIN arcs |-> y[arcs[k][2]] - y[arcs[k][1]]])   \* strong duality
 CertTotal(r) == SumSeq(r.cert.f)
 OptTotal(c, r) == IF c.n <= 5 THEN MinTotalSpan(c.n, DrawnArcSeq(r)) ELSE CertTotal(r)
-C10_CertBad(c, r) == c.n > 5 /\ ("cert" \notin DOMAIN r \/ ~CertOK(c, r))   \* harness error, never a verdict
+\* a missing or wrong certificate is a harness error (clauses named HARNESS_* are never verdicts)
+C10_CertBad(c, r) == ("cert" \in DOMAIN r /\ ~CertOK(c, r)) \/ (c.n > 5 /\ "cert" \notin DOMAIN r)
 C10_Fail(c, r, v) ==
-    If(DrawnTotal(c, r, v) = OptTotal(c, r), "Optimal")
-    \cup If(\A m \in v.roots : ContigComp(c, r, v, m), "Contiguous")
-C10_NonTrivial(c, r, v) == "pivots" \in DOMAIN r /\ r.pivots >= 1
+    IF C10_CertBad(c, r) THEN {"HARNESS_BadCertificate"}
+    ELSE (IF c.n <= 5 /\ "cert" \in DOMAIN r /\ CertTotal(r) # MinTotalSpan(c.n, DrawnArcSeq(r))
+          THEN {"HARNESS_CertificateDisagreesWithBruteForce"} ELSE {})
+         \cup If(DrawnTotal(c, r, v) = OptTotal(c, r), "Optimal")
+         \cup If(\A m \in v.roots : ContigComp(c, r, v, m), "Contiguous")
+C10_NonTrivial(c, r, v) == r.pivots >= 1
 
 -----------------------------------------------------------------------------
 (* C12 / C13 -- crossings of the drawing.                                  *)
@@ -304,9 +308,15 @@ C13_NonTrivial(c, r, v) == c.n >= 4 /\ \E i \in 1..c.n : Cardinality({k \in DOMA
 -----------------------------------------------------------------------------
 (* C01 -- Layout always returns.  The Return itself is the witness; the    *)
 (* clause left to judge on a Return is the time budget.                    *)
-Budget(c) == 2000000 + 2000 * (c.n + Len(c.edges)) * (c.n + Len(c.edges))     \* microseconds
+\* generous for the graph's size: 2 s plus (n+m)^3/100 ms.  The network-simplex positioner is documented as
+\* "time-intensive for graphs above a few dozen nodes" (measured: minutes for 40 nodes / 100 edges, DESIGN.md
+\* section 12), so it gets (n+m)^4/200 ms; both are >= 9x the slowest run measured on the repaired library.
+BudgetMs(c) == LET sz == c.n + Len(c.edges) IN
+               IF c.p4 = "nspos"
+               THEN (IF sz <= 300 THEN 2000 + ((sz * sz) \div 200) * sz * sz ELSE 2000000000)
+               ELSE 2000 + ((sz * sz) \div 100) * sz
 C01_Applies(c, r, v) == TRUE
-C01_Fail(c, r, v) == If(r.us <= Budget(c), "TimeBudget")
+C01_Fail(c, r, v) == If(r.us \div 1000 <= BudgetMs(c), "TimeBudget")
 C01_NonTrivial(c, r, v) == c.n >= 2 /\ NonLoopIdx(c.edges) # {}
 
 -----------------------------------------------------------------------------
